@@ -434,12 +434,16 @@ func (n *L2) Finalize(t time.Time, txs [][]byte, host []HostSetUpdate) (*abci.Re
 }
 
 // FinalizeAfterAbortedOE: see the L1 counterpart.
-func (n *L2) FinalizeAfterAbortedOE(t time.Time, txs [][]byte, host []HostSetUpdate) (*abci.ResponseFinalizeBlock, error) {
+func (n *L2) FinalizeAfterAbortedOE(t time.Time, txs [][]byte, host []HostSetUpdate, alt [][]byte) (*abci.ResponseFinalizeBlock, error) {
 	n.pendingHost = host
 	n.LastEndBlockErr = nil
 	h := n.nextHeight()
 	start := atomic.LoadInt64(&n.blocksEnded)
-	if _, err := n.App.ProcessProposal(&abci.RequestProcessProposal{Height: h, Time: t, Txs: txs, Hash: []byte("proposal-A")}); err != nil {
+	first := txs
+	if alt != nil {
+		first = alt
+	}
+	if _, err := n.App.ProcessProposal(&abci.RequestProcessProposal{Height: h, Time: t, Txs: first, Hash: []byte("proposal-A")}); err != nil {
 		return nil, err
 	}
 	for i := 0; i < 50_000_000 && atomic.LoadInt64(&n.blocksEnded) == start; i++ {
@@ -451,6 +455,19 @@ func (n *L2) FinalizeAfterAbortedOE(t time.Time, txs [][]byte, host []HostSetUpd
 		n.lastTime = t
 	}
 	return res, err
+}
+
+// SideSimulate / SideCheckTx: see the L1 counterpart.
+func (n *L2) SideSimulate(tx []byte) {
+	saved := *n.Fault
+	defer func() { _ = recover(); *n.Fault = saved }()
+	_, _, _ = n.App.Simulate(tx)
+}
+
+func (n *L2) SideCheckTx(tx []byte) {
+	saved := *n.Fault
+	defer func() { _ = recover(); *n.Fault = saved }()
+	_, _ = n.App.CheckTx(&abci.RequestCheckTx{Tx: tx, Type: abci.CheckTxType_New})
 }
 
 func (n *L2) Commit() {
